@@ -330,6 +330,7 @@ type knownFinding struct {
 	Match    string `json:"match"` // substring that must occur in the violation message
 	What     string `json:"what"`
 	Commit   string `json:"commit,omitempty"`
+	Probe    string `json:"probe,omitempty"` // replay file (relative to /verif) that still triggers the finding
 }
 
 var knownCache []knownFinding
@@ -481,6 +482,24 @@ func runOrchestrate(t *testing.T) {
 		if !knownHit[what] {
 			fmt.Printf("KNOWN-FINDING: property=%s %s (hit %d times in this run)\n", s.Prop, what, n)
 			knownHit[what] = true
+		}
+	}
+	// known findings that the generators deliberately avoid (e.g. because they
+	// abort the process) are probed by replaying their recorded case
+	for _, k := range known {
+		if k.Kind != "known" || k.Property != s.Prop || k.Probe == "" {
+			continue
+		}
+		cmd := exec.Command(self, "-test.run", "^TestSim$", "-test.timeout", "0", "-mode", "replay", "-replay", filepath.Join(*fVerifDir, k.Probe), "-prop", s.Prop, "-verifdir", *fVerifDir)
+		b, err := cmd.CombinedOutput()
+		code := 0
+		if ee, ok := err.(*exec.ExitError); ok {
+			code = ee.ExitCode()
+		}
+		still := code == 1 && (strings.Contains(string(b), "REPLAY-VIOLATION") || strings.Contains(string(b), k.Match))
+		if still && !knownHit[k.What] {
+			fmt.Printf("KNOWN-FINDING: property=%s %s (probe %s still triggers it)\n", s.Prop, k.What, k.Probe)
+			knownHit[k.What] = true
 		}
 	}
 	// confirm each own violation by replaying it in a fresh process
